@@ -56,32 +56,64 @@ theorem dropped_without_counterpart :
     (exportResult ["not_in_the_message"] { ext := [5] }).scalars = [] := by
   decide +kernel
 
-/-- **Time base of the series.** Per-interval base: stamp `k+1` minus stamp `k` is interval `k+1`
-(the stamps are the running sums); scalar base: equidistant; input series: its own epochs. -/
+theorem starts_length (acc : Rat) (l : List Rat) : (starts acc l).length = l.length := by
+  induction l generalizing acc with
+  | nil => rfl
+  | cons x l ih => simp [starts, ih]
+
+theorem starts_get (acc : Rat) (l : List Rat) (k : Nat) (h : k < l.length) :
+    (starts acc l)[k]? = some (acc + rsum (l.take k)) := by
+  induction l generalizing acc k with
+  | nil => simp at h
+  | cons x l ih =>
+    cases k with
+    | zero => simp [starts]
+    | succ k =>
+      simp only [starts, List.getElem?_cons_succ, List.take_succ_cons, rsum_cons]
+      rw [ih (acc + x) k (by simpa using h)]
+      congr 1; ring
+
+/-- **Time base of the series.** Per-interval base: one stamp per sample, the first at 0, and stamp `k+1` minus
+stamp `k` is interval `k` — the interval sample `k` is held for; scalar base: equidistant; input series: its
+own epochs. -/
 theorem time_base_series (dts : List Rat) :
     (timeBase dts.length (.series dts)).length = dts.length ∧
+    (∀ h : 0 < dts.length, (timeBase dts.length (.series dts))[0]? = some 0) ∧
     ∀ k (h : k + 1 < dts.length), ((timeBase dts.length (.series dts))[k + 1]?).bind (fun b =>
-      ((timeBase dts.length (.series dts))[k]?).map fun a => b - a) = some dts[k + 1] := by
-  constructor
-  · simp [timeBase, C17.cumsum_length]
+      ((timeBase dts.length (.series dts))[k]?).map fun a => b - a) = some (dts[k]'(by omega)) := by
+  refine ⟨by simp [timeBase, starts_length], ?_, ?_⟩
+  · intro h; simp only [timeBase]; rw [starts_get 0 dts 0 h]; simp
   · intro k h
     simp only [timeBase]
-    have gen : ∀ (acc : Rat) (l : List Rat) (k : Nat) (h : k + 1 < l.length),
-        ((Integrate.cumsum acc l)[k + 1]?).bind (fun b => ((Integrate.cumsum acc l)[k]?).map fun a => b - a) = some l[k + 1] := by
-      intro acc l
-      induction l generalizing acc with
-      | nil => intro k h; simp at h
-      | cons x l ih =>
-        intro k h
-        cases k with
-        | zero =>
-          cases l with
-          | nil => simp at h
-          | cons y l => simp [Integrate.cumsum]
-        | succ k =>
-          simp only [Integrate.cumsum, List.getElem?_cons_succ, List.getElem_cons_succ]
-          exact ih (acc + x) k (by simpa using h)
-    exact gen 0 dts k h
+    rw [starts_get 0 dts (k + 1) h, starts_get 0 dts k (by omega)]
+    simp only [Option.map_some, Option.bind_some, zero_add]
+    congr 1
+    rw [List.take_succ, rsum_append]
+    simp [List.getElem?_eq_getElem (show k < dts.length by omega), rsum]
+
+/-- The two representations of a constant step agree: `n` equal intervals give the stamps of the scalar base. -/
+theorem time_base_constant_step (n : Nat) (dt : Rat) :
+    timeBase n (.series (List.replicate n dt)) = timeBase n (.scalar dt) := by
+  apply List.ext_getElem?
+  intro k
+  by_cases h : k < n
+  · simp only [timeBase]
+    rw [starts_get 0 _ k (by simpa using h)]
+    simp only [List.take_replicate, zero_add, List.getElem?_map, List.getElem?_range h, Option.map_some,
+      min_eq_left h.le]
+    congr 1
+    induction k with
+    | zero => simp [rsum]
+    | succ k ih =>
+      rw [List.replicate_succ, rsum_cons, ih (by omega)]; push_cast; ring
+  · have h1 : (timeBase n (.series (List.replicate n dt))).length ≤ k := by simp [timeBase, starts_length]; omega
+    have h2 : (timeBase n (.scalar dt)).length ≤ k := by simp [timeBase]; omega
+    rw [List.getElem?_eq_none h1, List.getElem?_eq_none h2]
+
+/-- As found (D45): intervals 60, 120, 30 s were stamped 60, 180, 210 instead of 0, 60, 180. -/
+theorem time_base_legacy_shifted :
+    timeBaseLegacy 3 (.series [60, 120, 30]) = [60, 180, 210] ∧ timeBase 3 (.series [60, 120, 30]) = [0, 60, 180] := by
+  decide +kernel
 
 theorem time_base_scalar (n : Nat) (dt : Rat) (k : Nat) (h : k + 1 < n) :
     (timeBase n (.scalar dt))[k + 1]? = some (((k : Rat) + 1) * dt) ∧ (timeBase n (.scalar dt)).length = n := by
